@@ -100,11 +100,11 @@ prop("C10", "exploration",
 prop("C16", "exploration",
      quick=[("mixed_pure", "fast", 900), ("tracks_pure", "fast", 300), ("hostile_pure", "fast", 900), ("table_pure", "fast", 300),
             ("mixed_pure_disk", "fast", 400),
-            ("corrupt", "fast", 500), ("corruptgrid", "fast", 180)],
+            ("corrupt", "fast", 500), ("corruptgrid", "fast", 180), ("detect", "fast", 800)],
      thorough=[("mixed_pure", "fast", 50000), ("tracks_pure", "fast", 20000), ("crates_pure", "fast", 20000), ("hostile_pure", "fast", 40000),
                ("table_pure", "fast", 20000), ("mixed_pure_disk", "fast", 20000),
-               ("corrupt", "fast", 20000), ("corruptgrid", "fast", 3600)],
-     relevant=["purity_checked"],
+               ("corrupt", "fast", 20000), ("corruptgrid", "fast", 3600), ("detect", "fast", 40000)],
+     relevant=["purity_checked", "detections"],
      rule="in every state reached by the mixed workload the monitor brackets the full block of observing calls with VFS "
           "write/truncate counters, sqlite3_total_changes and the image hash, and repeats the observation with the clock "
           "moved; non-trivial = at least one monitored observation of a non-empty library; distinct = new plan digest reaching "
